@@ -11,5 +11,6 @@ fixes = subprocess.run(['git', '-C', '/repo', 'log', '--reverse', '--format=* `%
 put('fixes', fixes)
 put('findings', subprocess.run(['python3', os.path.join(here, 'tools', 'findings_table.py')], capture_output=True, text=True).stdout.split('\nFixed (one line')[0])
 put('seeds', subprocess.run(['python3', os.path.join(here, 'tools', 'seed_table.py')], capture_output=True, text=True).stdout)
+put('summary', subprocess.run(['python3', os.path.join(here, 'tools', 'summary_table.py')], capture_output=True, text=True).stdout)
 open(p, 'w').write(s)
 print('DESIGN.md tables refreshed')
